@@ -497,6 +497,17 @@ private:"""),
          new="    critical(static_cast<size_t>(samples.max()) >= static_cast<size_t>(m_datasource.samples()),"),
     dict(property="C08", name="feature-guard-upper-end-only", rule="R-C08-1", file="src/dataset.cpp",
          old="    critical(feature < 0 || feature >= features(),", new="    critical(feature >= features(),"),
+    dict(property="C10", name="hinge-sweep-misses-the-last-pair", rule="R-C10-11", file="src/wlearner/hinge.cpp",
+         old="""                      for (size_t iv = 0, sv = cache.m_ivalues.size(); iv + 1 < sv; ++iv)
+                      {
+                          const auto& ivalue1 = cache.m_ivalues[iv + 0];
+                          const auto& ivalue2 = cache.m_ivalues[iv + 1];""",
+         new="""                      for (size_t iv = 1, sv = cache.m_ivalues.size(); iv + 1 < sv; ++iv)
+                      {
+                          const auto& ivalue1 = cache.m_ivalues[iv - 1];
+                          const auto& ivalue2 = cache.m_ivalues[iv + 0];"""),
+    dict(property="C10", name="stump-sweep-skips-the-first-pair", rule="R-C10-11", file="src/wlearner/stump.cpp",
+         old="for (size_t iv = 0, sv = cache.m_ivalues.size(); iv + 1 < sv; ++iv)", new="for (size_t iv = 1, sv = cache.m_ivalues.size(); iv + 1 < sv; ++iv)"),
     dict(property="C14", name="make-scaling-skipped-for-small-range", rule="R-C14-8", file="src/dataset/stats.cpp",
          old="    if (stats.m_min.size() > 0)\n    {\n        switch (scaling)", new="    if (stats.m_min.size() > 0 && stats.m_div_range.max() < 1e+6)\n    {\n        switch (scaling)"),
     dict(property="C14", name="make-scaling-early-return-without-samples", rule="R-C14-8", file="src/dataset/stats.cpp",
@@ -1355,6 +1366,15 @@ BENIGN = [
          new="""                const auto it = std::lower_bound(begin, end, m_thresholds(bin));"""),
     dict(property="C08", name="feature-guard-single-unsigned-comparison", file="src/dataset.cpp",
          old="    critical(feature < 0 || feature >= features(),", new="    critical(static_cast<size_t>(feature) >= static_cast<size_t>(features()),"),
+    dict(property="C10", name="hinge-sweep-indexed-by-upper-value", file="src/wlearner/hinge.cpp",
+         old="""                      for (size_t iv = 0, sv = cache.m_ivalues.size(); iv + 1 < sv; ++iv)
+                      {
+                          const auto& ivalue1 = cache.m_ivalues[iv + 0];
+                          const auto& ivalue2 = cache.m_ivalues[iv + 1];""",
+         new="""                      for (size_t iv = 1, sv = cache.m_ivalues.size(); iv < sv; ++iv)
+                      {
+                          const auto& ivalue1 = cache.m_ivalues[iv - 1];
+                          const auto& ivalue2 = cache.m_ivalues[iv + 0];"""),
     dict(property="C14", name="make-scaling-guard-on-other-member", file="src/dataset/stats.cpp",
          old="    if (stats.m_min.size() > 0)\n    {\n        switch (scaling)", new="    if (0 != stats.m_samples.size())\n    {\n        switch (scaling)"),
     dict(property="C14", name="scale-mean-reassociated", file="src/dataset/stats.cpp",
